@@ -46,6 +46,15 @@ OTHER_EXTRAS = [
     {"name": "choice_a", "type": "string", "oneof": "choice"},
     {"name": "choice_b", "type": "int32", "oneof": "choice"},
 ]
+# fields WITH PRESENCE (round 10): proto3 `optional` scalars / enums (a synthetic oneof: `Field.oneof` is set for them too) and
+# the members of a real oneof; each may be REQUIRED, and then belongs to the required scalars the query must carry
+PRESENCE_EXTRAS = [
+    {"name": "opt_count", "type": "int32", "optional": True}, {"name": "show_deleted", "type": "bool", "optional": True},
+    {"name": "opt_ratio", "type": "double", "optional": True}, {"name": "opt_big", "type": "int64", "optional": True},
+    {"name": "opt_label", "type": "string", "optional": True}, {"name": "opt_view", "type": "enum", "type_name": "Genre", "optional": True},
+]
+PICK_ONEOF = [{"name": "pick_s", "type": "string", "oneof": "pick"}, {"name": "pick_n", "type": "int32", "oneof": "pick"},
+              {"name": "pick_b", "type": "bool", "oneof": "pick"}]
 # path-capable fields: (dotted field path, scalar type, sub-templates)
 VARS = [
     ("name", "string", ["shelves/*/books/*", "shelves/*", "things/*", "**", None]),
@@ -144,13 +153,21 @@ def gen_method(r, idx, kind="http", nbind=None, required_kinds=None, no_required
         if f.get("oneof"):
             for g in OTHER_EXTRAS:
                 if g.get("oneof") == f["oneof"]:
-                    add(dict(g))
+                    add({**g, **({"required": True} if r.maybe(0.3) else {})})
             continue
+        if f.get("optional") and r.maybe(0.4):
+            f["required"] = True
         if f.get("type") == "enum" and not f.get("repeated") and r.maybe(0.3):
             f["required"] = True
         if f.get("repeated") and f.get("type") != "message" and r.maybe(0.08):
             f["required"] = True
         add(f)
+    if r.maybe(0.5):              # fields with presence, mostly REQUIRED
+        for f in r.sample(PRESENCE_EXTRAS, r.randint(1, 3)):
+            add({**f, **({"required": True} if r.maybe(0.7) else {})})
+        if r.maybe(0.4):
+            for g in r.sample(PICK_ONEOF, r.randint(1, 3)):
+                add({**g, **({"required": True} if r.maybe(0.6) else {})})
     if no_required if no_required is not None else r.maybe(0.2):      # a request without any REQUIRED field
         for f in fields:
             f.pop("required", None)
@@ -538,6 +555,23 @@ def gen_valuation(r, codec, m):
                 del_path(val, r.pick(others))
         for (path, typ, tmpl) in m["bindings"][target]["vars"]:
             set_path(val, path, var_value(r, typ, tmpl))
+    for fs in m["fields"]:                 # fields with presence: unset / explicitly the default value / something else
+        if not (fs.get("optional") or fs.get("oneof")) or fs.get("type") in ("message",) or fs.get("repeated"):
+            continue
+        how = r.pick(["as-is", "as-is", "unset", "default", "default", "non-default"])
+        if how == "as-is":
+            continue
+        if how != "unset" and fs.get("oneof"):
+            for g in m["fields"]:
+                if g.get("oneof") == fs["oneof"]:
+                    val.pop(g["name"], None)
+        if how == "unset":
+            val.pop(fs["name"], None)
+        elif how == "default":
+            val[fs["name"]] = {"string": "", "bool": False, "double": 0.0, "float": 0.0, "bytes": "",
+                               "enum": "GENRE_UNSPECIFIED"}.get(fs["type"], 0)
+        else:
+            val[fs["name"]] = {"string": "x y", "bool": True, "double": 2.5, "float": 0.5, "bytes": "AQI=", "enum": "POETRY"}.get(fs["type"], 7)
     val = prune(desc, codec.normal(in_full(m), val))
     k = select_binding(m, val) if m["kind"] == "http" else None
     if k is not None:
@@ -750,12 +784,13 @@ def required_scalars(desc, m):
     return out
 
 
-def reassemble(codec, m, k, pathvars, rec, numeric, sent):
+def reassemble(codec, m, k, pathvars, rec, numeric, sent, presence_defaults=None):
     """problems [(key, text)] of reading the observed request as an instance of declared binding k"""
     desc = codec.pool.FindMessageTypeByName(in_full(m))
     b = m["bindings"][k]
     primary = m["bindings"][0]
     problems = []
+    ctx_presence_defaults = presence_defaults if presence_defaults is not None else []
     # the known `additional-binding` / `primary-has-no-body` classes need their trigger: an ADDITIONAL binding that the request
     # really selects (first declared binding whose path variables are set and conform) — not merely a binding whose template
     # happens to match the observed path as well
@@ -863,6 +898,15 @@ def reassemble(codec, m, k, pathvars, rec, numeric, sent):
     if b["body"] and b["body"] != "*" and b["body"] in Q:
         problems.append(("dup:body+query", f"body field {b['body']} also in the query"))
     # --- no loss
+    # a REQUIRED scalar with presence (proto3 `optional`, member of a real oneof) that the caller left unset must travel
+    # default-valued like any required scalar; on the receiving side that is "set to the default", not "unset" — the
+    # statement prescribes exactly this, so exactly these query parameters are set aside before the comparison
+    for fd in required_scalars(desc, m):
+        if fd.has_presence and fd.name not in sent and fd.name in Q and fd.name not in P and fd.name not in B:
+            raws = [v for (kk, v) in pairs if find_field(desc, kk) is fd]
+            if len(raws) == 1 and is_default_text(fd, raws[0]):
+                ctx_presence_defaults.append(fd.name)
+                del Q[fd.name]
     merged = deep_merge(deep_merge(P, B), Q)
     body_unsent = any(p[0].startswith("body-not-sent") for p in problems)
     if body_unsent:                       # already reported; everything ELSE (path, query) must still be rebuilt exactly
@@ -1060,6 +1104,11 @@ def oracle_call(ctx, codec, spec, m, plan, res, label):
     ctx.count("calls", "sent" + (":repeat" if plan.get("repeat") else ""))
     ctx.count("binding_used", "primary" if k == 0 else "additional")
     ctx.count("body_kind", {None: "none", "*": "star"}.get(m["bindings"][k]["body"], "field"))
+    for fs in m["fields"]:
+        if fs.get("required") and (fs.get("optional") or fs.get("oneof")) and fs.get("type") not in ("message", "enum"):
+            v = val.get(fs["name"])
+            ctx.count("required_field_with_presence", ("proto3 optional" if fs.get("optional") else "oneof member") + ": " +
+                      ("unset" if fs["name"] not in val else "set to the default" if v in ("", 0, "0", False, 0.0) else "set, non-default"))
     seen = set()
     for key, text in probs:
         if key in seen:
@@ -1185,7 +1234,8 @@ def method_json(m):
     fields = []
     for fs in m["fields"]:
         kind = "msg" if fs.get("map") else KIND.get(fs["type"], "int")
-        fields.append([fs["name"], kind, bool(fs.get("repeated") or fs.get("map")), bool(fs.get("required"))])
+        fields.append([fs["name"], kind, bool(fs.get("repeated") or fs.get("map")), bool(fs.get("required")),
+                       "optional" if fs.get("optional") else ("oneof" if fs.get("oneof") else "implicit")])
     return {"http": http, "additional": add, "fields": fields, "client_streaming": m["kind"] == "cstream"}
 
 
@@ -1547,7 +1597,8 @@ def sweep(ctx, words, label):
 def run(ctx):
     ctx.rule = ("one API = 6 methods with 1..3 http bindings (five verbs, `*`/field/absent body, top-level and nested path variables, "
                 "reserved words as top-level name / leaf / non-leaf segment, with and without sub-templates, `**`, `:verb` suffixes, required "
-                "fields of every scalar kind or none at all, enums, repeated scalars, nested messages, well-known types, proto3-optional, "
+                "fields of every scalar kind or none at all, REQUIRED fields with presence (proto3 `optional` scalars, members of a real oneof; "
+                "valuations leave them unset / set them to the default explicitly / set something else), enums, repeated scalars, nested messages, well-known types, proto3-optional, "
                 "oneof, maps/repeated messages for bodies) + a method without usable binding (+ sometimes the AIP-134 PATCH/update_mask shape "
                 "and a client-streaming method) x rest-numeric-enums {off,on} x transport {rest, grpc+rest} x package layout {one file in the API "
                 "package (1/2); every service in a sub-package with the shared messages in the API package; one service in the API package "
@@ -1562,6 +1613,10 @@ def run(ctx):
     ctx.assume("path variables are singular string/int32/int64 fields; body fields are singular message fields (google.api.http's own rule)")
     ctx.assume("fields left to the query string are scalar, repeated scalar, or non-repeated message without map/repeated-message/Struct "
                "members (google.api.http's own rule; flatten_query_params raises otherwise); set-but-empty sub-messages are not generated")
+    ctx.assume("an UNSET required scalar WITH PRESENCE (proto3 optional, oneof member) must travel default-valued like any required scalar; the "
+               "receiver then sees it SET to the default: exactly these query parameters are set aside before the lossless comparison. For "
+               "REQUIRED members of a real oneof the statement's two clauses pull apart (`pickS=x&pickN=0` selects two members); the literal "
+               "'every required scalar travels' clause is what is checked, and the unchanged tree follows it uniformly (no finding)")
     ctx.assume("a required ENUM field is not a 'required scalar field': the template deliberately writes {} for it (nothing is sent)")
     ctx.assume("generated field names are lower snake_case (style guide); the excluded point (a required field called `userID`: "
                "to_camel_case differs from the JSON name) is replayed from the corpus and is a known finding")
@@ -1628,5 +1683,7 @@ CLAIM = dict(
           "JSON codec (not modelled: the harness supplies scalar texts). URL-encoding by requests/api-core, REST streaming and LRO are not covered. "
           "The agreement of the two template readings (path_params regex vs _VARIABLE_RE) is a hypothesis of agree_primary, discharged per instance. "
           "The model has no notion of package: half of the generated APIs put services and/or request/response messages into a proto sub-package "
-          "(per-service templates rendered with a sub-package view of the API); oracle and model comparison run on them unchanged."),
+          "(per-service templates rendered with a sub-package view of the API); oracle and model comparison run on them unchanged. "
+          "FieldD carries the presence kind (implicit / proto3 optional / oneof member); requiredDefaults_presence_irrelevant proves the defaults "
+          "table does not depend on it, required_defaults_skipping_oneof_counterexample refutes the table that skips `Field.oneof` fields."),
 )
